@@ -25,9 +25,11 @@ theorem cli_date_defaults (a : CliArgs α) (today : Int) :
   refine ⟨fun h => by simp [readParamsCli, h], fun s h => by simp [readParamsCli, h],
     fun h => by simp [readParamsCli, h], fun e h => by simp [readParamsCli, h]⟩
 
-/-- **out-of-range coordinates and offsets are rejected before anything is computed**: a location
-    exists iff each of the four values passes its type's range check (C18), and then holds exactly
-    those values -/
+/-- a location exists iff each of the four values passes its type's range check (C18), and then holds
+    exactly those values.  (This is the wiring model's part of "out-of-range values are rejected
+    before anything is computed": `cliCompute` needs a `Location`.  Exit codes, clap's parsing and the
+    order of side effects are not modelled; the falsifier runs the real binary just outside each range
+    and checks a non-zero exit and that no output file was written.) -/
 theorem cli_accepts_iff_in_range (lat lon elev gmt : α) :
     (∃ l, cliLocation lat lon elev gmt = some l) ↔
       ((tryFrom .Latitude lat).isSome ∧ (tryFrom .Longitude lon).isSome ∧
